@@ -172,7 +172,7 @@ func reifyInto(opts *options, to reflect.Value, from *Config) Error {
 	to = chaseValuePointers(to)
 
 	if to, ok := tryTConfig(to); ok {
-		return mergeConfig(opts, to.Addr().Interface().(*Config), from)
+		return mergeInto(opts, to.Addr().Interface().(*Config), from)
 	}
 
 	tTo := chaseTypePointers(to.Type())
@@ -642,7 +642,7 @@ func reifyMergeValue(
 }
 
 func mergeFieldConfig(opts fieldOptions, to, from *Config) Error {
-	return mergeConfig(opts.opts, to, from)
+	return mergeInto(opts.opts, to, from)
 }
 
 func reifyArray(
